@@ -106,8 +106,58 @@ func c19Model(ops []c19op) []byte {
 	return w
 }
 
-func c19Encode(ops []c19op) []byte {
+// c19Arena is what the raw writes of a history are cut from: one array, each
+// write a sub-slice with the rest of the array behind it (a caller copying
+// pieces of a receive buffer into an encoder). The encoder owns what it was
+// given: the arena is not written by it, and the encoding does not change when
+// the arena is overwritten afterwards.
+type c19Arena struct {
+	mem  []byte
+	refs [][2]int
+}
+
+func c19Encode(ops []c19op) []byte { b, _ := c19EncodeArena(ops); return b }
+
+func c19EncodeArena(ops []c19op) ([]byte, string) {
+	var ar c19Arena
+	for _, o := range ops {
+		if o.kind == 5 {
+			ar.refs = append(ar.refs, [2]int{len(ar.mem), len(ar.mem) + len(o.raw)})
+			ar.mem = append(ar.mem, o.raw...)
+			ar.mem = append(ar.mem, 0xa5, 0x5a) // a gap the encoder has no business with
+		}
+	}
+	ar.mem = append(ar.mem, bytes.Repeat([]byte{0xc3}, 24)...)
+	before := append([]byte{}, ar.mem...)
+	ri := 0
 	e := ofbase.NewEncoder()
+	for _, o := range ops {
+		if o.kind == 5 {
+			r := ar.refs[ri]
+			ri++
+			e.Write(ar.mem[r[0]:r[1]]) // capacity runs on to the end of the arena
+			continue
+		}
+		c19EncodeOp(e, o)
+	}
+	out := append([]byte{}, e.Bytes()...)
+	if !bytes.Equal(ar.mem, before) {
+		return out, fmt.Sprintf("the encoder wrote into the caller's memory: %x, was %x", ar.mem, before)
+	}
+	for i := range ar.mem {
+		ar.mem[i] = 0xee
+	}
+	if after := e.Bytes(); !bytes.Equal(after, out) {
+		return out, fmt.Sprintf("the encoding changed when the caller reused its buffer: %x, was %x", after, out)
+	}
+	return out, ""
+}
+
+func c19EncodeOp(e *ofbase.Encoder, o c19op) {
+	c19EncodeOps(e, []c19op{o})
+}
+
+func c19EncodeOps(e *ofbase.Encoder, ops []c19op) {
 	for _, o := range ops {
 		switch o.kind {
 		case 0:
@@ -128,7 +178,6 @@ func c19Encode(ops []c19op) []byte {
 			e.SkipAlign()
 		}
 	}
-	return e.Bytes()
 }
 
 type c19fail struct{ sig, detail string }
@@ -278,8 +327,13 @@ func TestC19(t *testing.T) {
 			}
 		}
 		var got []byte
-		if fr, msg := safeCall(func() { got = c19Encode(ops) }); fr != "" {
+		var owns string
+		if fr, msg := safeCall(func() { got, owns = c19EncodeArena(ops) }); fr != "" {
 			c.Report(rt, "C19|Encoder|panic|"+fr, msg, strs)
+			return
+		}
+		if owns != "" {
+			c.Report(rt, "C19|Encoder|shares-memory-with-caller", fmt.Sprintf("history %v: %s", strs, owns), strs)
 			return
 		}
 		if !bytes.Equal(got, want) {
